@@ -574,9 +574,10 @@ func (w *world) forge(toB bool) {
 	}
 	d := kcp.VerifKCPState(dst.k)
 	var p []byte
-	kind := g.Intn(9)
+	foreign := false
+	kind := g.Intn(10)
 	if len(q) == 0 && kind < 5 {
-		kind = 5 + g.Intn(4)
+		kind = 5 + g.Intn(5)
 	}
 	switch kind {
 	case 0, 1, 2: // header field replaced by boundary values relative to the live state
@@ -628,6 +629,23 @@ func (w *world) forge(toB bool) {
 		binary.LittleEndian.PutUint32(p[16:], d.SndUna+uint32(g.Intn(int(d.SndNxt-d.SndUna)+3))-1)
 		binary.LittleEndian.PutUint32(p[20:], uint32(n))
 		copy(p[24:], g.Bytes(n))
+	case 9: // a genuine datagram (or a bare ACK) followed by a deliverable PUSH of ANOTHER conversation (C11)
+		if len(q) > 0 {
+			p = append([]byte(nil), q[g.Intn(len(q))]...)
+		} else {
+			p = ackSeg(d.Conv, d.SndUna, d.SndUna, w.now, 32)
+		}
+		h := make([]byte, 24+5)
+		binary.LittleEndian.PutUint32(h, d.Conv^uint32(1+g.Intn(3)))
+		h[4] = 81
+		binary.LittleEndian.PutUint16(h[6:], 32)
+		binary.LittleEndian.PutUint32(h[8:], w.now)
+		binary.LittleEndian.PutUint32(h[12:], d.RcvNxt+uint32(g.Intn(2)))
+		binary.LittleEndian.PutUint32(h[16:], d.SndUna)
+		binary.LittleEndian.PutUint32(h[20:], 5)
+		copy(h[24:], "EVIL!")
+		p = append(p, h...)
+		foreign = true
 	case 8: // acknowledgements with a timestamp of any age: every 32-bit RTT sample reaches update_ack (C18)
 		ages := []uint32{0, 1, 50, 1000, 60000, 1000000, 100000000, 500000000, 716000000, 750000000, 900000000, 1073000000, 1 << 30, 1<<31 - 1, 1 << 31, g.U32()}
 		for i := 1 + g.Intn(3); i > 0; i-- {
@@ -657,6 +675,15 @@ func (w *world) forge(toB bool) {
 	w.forged = true
 	w.o.Count(fmt.Sprintf("forge:%d", kind))
 	w.input(dst, p, !g.Chance(10), g.Chance(20))
+	if foreign && !w.aborted {
+		d2 := kcp.VerifKCPState(dst.k)
+		for _, sg := range append(append([]kcp.VerifSeg{}, d2.RcvQueue...), d2.RcvBuf...) {
+			if string(sg.Data) == "EVIL!" {
+				w.viol("conv-foreign-segment-accepted", fmt.Sprintf("%s (conv %d) took a PUSH segment of another conversation (sn %d) that followed a segment of its own in the same datagram", dst.name, d2.Conv, sg.Sn))
+				break
+			}
+		}
+	}
 }
 
 type cfg struct {
